@@ -52,8 +52,10 @@ def generate(rng, tier):
         ew, nsx = reg[1] - reg[0], reg[3] - reg[2]
         npts = rng.randint(1, maxpts)
         lat = rng.choice([4, 8, 64])
-        es = [reg[0] + rng.randint(0, int(ew * lat)) / lat for _ in range(npts)]
-        ns = [reg[2] + rng.randint(0, int(nsx * lat)) / lat for _ in range(npts)]
+        # the cloud may be larger than the (given) region: points beyond its bounds, which windows of an adjusted region can reach
+        over = rng.choice([0, 0, 1, 2, 4])
+        es = [reg[0] + rng.randint(-over * lat, int(ew * lat) + over * lat) / lat for _ in range(npts)]
+        ns = [reg[2] + rng.randint(-over * lat, int(nsx * lat) + over * lat) / lat for _ in range(npts)]
         shape2d = [npts] if (npts % 2 or rng.random() < 0.6) else [2, npts // 2]
         if rng.random() < 0.25:
             center = (reg[0] + ew * rng.randint(-2, 10) / 8.0, reg[2] + nsx * rng.randint(-2, 10) / 8.0)
